@@ -30,7 +30,7 @@ WIPING_CALLEES = ('zeroize::Zeroizing::<Z>::new',)
 
 # reviewed exceptions: key -> reason
 TABLED = {
-    'R-C20-2/range_proof::RangeProof::<P>::verify/drop/std::vec::Vec<curve25519_dalek::Scalar>/nonce+seed':
+    'R-C20-2/<verifier-core>/drop/std::vec::Vec<curve25519_dalek::Scalar>/nonce+seed':
         'temp_masks is moved into ExtendedMask::assign on the only feasible path; it is dropped only if nonce()/try_into fails, which needs a '
         'label > 16 bytes or an index >= 2^32 (labels are constants <= 5 bytes, indices are < 64) ',
     'R-C20-2/extended_mask::ExtendedMask::assign/drop/std::vec::Vec<curve25519_dalek::Scalar>/param:blindings':
@@ -106,6 +106,9 @@ class Taint(object):
         self.param_taint = {}                       # (bodykey, idx) -> set(labels)
         self.challenge_fns = set()
         self.prover_bodies = set()
+        from . import roles, weights
+        self.nonce_fns = roles.nonce_fns(ctx)
+        self.samplers = set(weights.rejection_samplers(ctx))
         self._memo = {}
 
     def sources(self, t):
@@ -131,9 +134,9 @@ class Taint(object):
                     last = nm.split('::')[-1]
                     if last in DECLASSIFY_LAST or nm in self.challenge_fns:
                         continue
-                    if last == 'nonce' and nm in self.ctx.facts.fn:
+                    if nm in self.nonce_fns:
                         out.add('nonce')
-                    if last == 'random_not_zero' and x[3] and x[3][0][0].split('::{closure')[0] in self.prover_bodies:
+                    if nm in self.samplers and x[3] and x[3][0][0].split('::{closure')[0] in self.prover_bodies:
                         out.add('prover-rng')
                 if tag == 'ev' and x[1] == 'call':
                     last = x[2].split('::')[-1]
@@ -243,6 +246,12 @@ def run(ctx):
     ndrops = 0
     nheap = 0
     seen_keys = set()
+    # tabled exceptions are keyed by role, not by the (private) function name
+    role_name = {}
+    from . import msm
+    vc = msm.verifier_core(ctx, 'R-C20-2')
+    if vc is not None:
+        role_name[vc.path] = '<verifier-core>'
     for b in facts.fns():
         if b.impl_trait in ('std::fmt::Debug', 'std::fmt::Display'):
             continue
@@ -284,7 +293,8 @@ def run(ctx):
                     role = 'param:%s' % b.local_name(place['l'])
                 else:
                     role = '+'.join(sorted({s.split('-')[0] for s in src})) or 'clean'
-                key = 'R-C20-2/%s/%s/%s/%s' % (b.path, kind.split(':')[0], ty, role)
+                fn_role = role_name.get(b.path, b.path)
+                key = 'R-C20-2/%s/%s/%s/%s' % (fn_role, kind.split(':')[0], ty, role)
                 if key in seen_keys:
                     continue
                 seen_keys.add(key)
